@@ -222,6 +222,12 @@ func stringFuncValue(d *GDecl, n *idr.Node, externals map[string]string) (string
 	if name != "upper" && name != "lower" && name != "concat" && name != "coalesce" {
 		return "", nil, false
 	}
+	// whether the member is understood is decided by its SHAPE, never by how a record evaluates
+	for _, a := range d.Func.Args {
+		if a.Func != nil || a.Template != nil || a.HasObject || a.HasArray || a.XDyn != nil {
+			return "", nil, false
+		}
+	}
 	var args []string
 	for _, a := range d.Func.Args {
 		st, v, ok := leafValue(a, n, externals)
